@@ -63,7 +63,7 @@ def step (_ : Unit) (toks : List String) : Unit × String :=
     (match lex (unhex t) with
      | none => ((), "err | na")
      | some ts =>
-       let eng := (runEngine g "Lql" ts).bind (fun v => toLql (dpOf rows) (8 * ts.length + 50) v)
+       let eng := (runEngine g "Lql" ts).bind (fun v => toLqlChecked (dpOf rows) (8 * ts.length + 50) v)
        -- TRUNCATE statements also go through the direct parser the theorems are about (+ its two decidable hypotheses)
        let td :=
          match ts with
